@@ -12,5 +12,5 @@ CONSTANTS
  LocalSet = {TRUE}
  LeakSet = {FALSE}
  MaxFaults = 1
-INVARIANTS TypeOK NoGrandchild NoChildWhenOff ChildOnlyIfNeeded AtMostOneAcquire HolderKeepsToken OnlyApplicationsAcquire
+INVARIANTS FreshTokenStays TypeOK NoGrandchild NoChildWhenOff ChildOnlyIfNeeded AtMostOneAcquire HolderKeepsToken OnlyApplicationsAcquire
 CHECK_DEADLOCK FALSE
